@@ -36,7 +36,9 @@ ASSUMPTIONS = [
     "reporter results are ints, None or lists of ints; agent-level values are immutable (ints / None)",
     "agent-type reporters are judged when the key class has no subclassed instances or no direct instances registered (quantifier)",
     "frames: NaN is read as None and integral floats as ints (pandas' own column conversion is not part of the statement)",
-    "a collect during which a reporter itself raises is not judged by the oracle (only by the model correspondence)",
+    "a collect during which a reporter itself raises: the oracle only demands that tables and the records of other steps stay "
+    "untouched and no model_vars list shrinks or grows by more than one; the exact state left behind (C12_collect_raises_state) "
+    "is compared model-vs-implementation by T2 (60 dedicated histories per quick run)",
 ]
 E_ATTR, E_VALUE, E_RUNTIME, E_EXC, E_USERWARNING = 1, 2, 3, 4, 5
 CLASSES = [0, 1, 2, 3, 4]          # creatable; 5 = mesa.Agent; 9 = not an Agent class
@@ -220,7 +222,55 @@ def gen_cases(rng, tier):
     sweep = list(enumerate_cases(tier))
     rng.shuffle(sweep)
     cases += sweep[:150 if tier == "quick" else 0]
+    # collects during which a reporter raises (the state collect leaves behind: C12_collect_raises_state)
+    for _ in range(60 if tier == "quick" else 600):
+        cases.append(_gen_raising_case(rng))
     return cases
+
+
+def _gen_raising_case(rng):
+    """reporter dictionaries in which some reporter can raise AttributeError (model: lambda / partial / bound method reading
+    model.m<n>; agent level: lambda a: a.a<n>), histories that delete / never set that attribute between collects"""
+    cfg = {"mreps": [], "areps": [], "treps": [], "tables": [[0, [0, 1]]] if rng.random() < 0.3 else []}
+    nm = rng.randint(1, 4)
+    risky = rng.randrange(nm) if rng.random() < 0.8 else None
+    for i in range(nm):
+        if i == risky:
+            cfg["mreps"].append([i, rng.choice([["method", ["attr", 0]], ["fun", True, ["attr", 0]], ["fun", False, ["attr", 0]]])])
+        else:
+            cfg["mreps"].append([i, rng.choice([["fun", False, ["steps"]], ["attr", 1], ["method", ["count"]], ["args", "sum", [1, 2]],
+                                                ["fun", False, ["ids"]], ["attr", 0]])])
+    if rng.random() < 0.6:
+        cfg["areps"] = [[0, ["fun", ["id"]]], [1, rng.choice([["fun", ["attr", 2]], ["method", ["attr", 2]], ["attr", 2]])]]
+    if rng.random() < 0.4:
+        cfg["treps"] = [[rng.choice([1, 2, 5]), [[0, ["fun", ["attr", 2]]]]], [rng.choice([0, 3, 9]), [[0, ["attr", 0]]]]]
+    ops = []
+    if rng.random() < 0.8:
+        ops.append(rng.choice([["set", 0, 4], ["newlist", 0, [1, 2]]]))
+    ops.append(["set", 1, 3])
+    nxt = 1
+    for _ in range(rng.randint(1, 3)):
+        ops.append(["create", rng.choice([0, 1, 2, 3]), [[0, nxt], [2, 10 + nxt]] if rng.random() < 0.7 else [[0, nxt]]])
+        nxt += 1
+    for _ in range(rng.randint(4, 12)):
+        p = rng.random()
+        if p < 0.35:
+            ops.append(["collect"])
+        elif p < 0.5:
+            ops.append(["step"])
+        elif p < 0.65:
+            ops.append(["del", 0])
+        elif p < 0.78:
+            ops.append(rng.choice([["set", 0, rng.randint(0, 9)], ["newlist", 0, [rng.randint(0, 9)]]]))
+        elif p < 0.88:
+            ops.append(["create", rng.choice([0, 1, 2]), [[0, nxt]] if rng.random() < 0.5 else [[0, nxt], [2, nxt]]])
+            nxt += 1
+        elif p < 0.94:
+            ops.append(["addrow", 0, [[0, 1], [1, 2]], False])
+        else:
+            ops.append(["frames"])
+    ops += [["collect"], ["frames"]]
+    return {"cfg": cfg, "ops": ops}
 
 
 def enumerate_cases(tier, broken=False):
@@ -640,7 +690,18 @@ def run_impl(case):
                     if reason is None:
                         code = [-1, 99]
                         fail("C12/collect/unexpected-exception", i, f"collect() raised {type(raised).__name__}: {raised}")
-                    # not judged: adopt what the implementation holds
+                    # what the statement does say about a collect that raises: it may not disturb the tables nor the
+                    # records kept under other steps, and no model_vars list may shrink or grow by more than one value
+                    other = lambda recs: [(s_, r_) for s_, r_ in recs if s_ != steps_now]   # noqa: E731
+                    if after["tb"] != before["tb"] or other(after["ar"]) != other(before["ar"]) or other(after["tr"]) != other(before["tr"]):
+                        fail("C12/collect/raising-collect-touched-other-records", i,
+                             f"collect() raised {type(raised).__name__} and changed tables or records of other steps: "
+                             f"before {before}, after {after}")
+                    for (n_, l0), (_, l1) in zip(before["mv"], after["mv"]):
+                        if l1[:len(l0)] != l0 or len(l1) > len(l0) + 1:
+                            fail("C12/collect/raising-collect-model-vars", i,
+                                 f"collect() raised {type(raised).__name__}; model_vars[r{n_}] went from {l0} to {l1}")
+                    # otherwise not judged: adopt what the implementation holds
                     sh = {k: [(a, list(b)) for a, b in v] for k, v in after.items()}
                 else:
                     if reason == "validation":
